@@ -116,7 +116,7 @@ func (r *Result) Finish() int {
 		}
 		unlisted += len(vs)
 		// one replay file per signature (first occurrence), all listed in it
-		dir := filepath.Join(verifDir, "replays", r.ID)
+		dir := filepath.Join(outDir(), "replays", r.ID)
 		os.MkdirAll(dir, 0o755)
 		payload := map[string]any{"property": r.ID, "sig": sig, "detail": vs[0].Detail, "replay": vs[0].Replay, "occurrences": len(vs), "seed": r.Seed, "tier": r.Tier}
 		b, _ := json.MarshalIndent(payload, "", " ")
@@ -176,8 +176,8 @@ func (r *Result) Finish() int {
 			return 2
 		}
 	}
-	os.MkdirAll(filepath.Join(verifDir, "evidence"), 0o755)
-	if err := os.WriteFile(filepath.Join(verifDir, "evidence", r.ID+".json"), b, 0o644); err != nil {
+	os.MkdirAll(filepath.Join(outDir(), "evidence"), 0o755)
+	if err := os.WriteFile(filepath.Join(outDir(), "evidence", r.ID+".json"), b, 0o644); err != nil {
 		fmt.Printf("INTERNAL cannot write evidence: %v\n", err)
 		return 2
 	}
@@ -189,4 +189,14 @@ func (r *Result) Finish() int {
 	}
 	fmt.Printf("OK property=%s tier=%s seed=%d wall=%.1fs\n", r.ID, r.Tier, r.Seed, time.Since(r.Start).Seconds())
 	return 0
+}
+
+// outDir is where evidence and replay files go: /verif, unless a trial run against a scratch
+// worktree (tools/try_patch_wt.sh) redirects them so that parallel trials do not overwrite the
+// evidence of the real tree.
+func outDir() string {
+	if d := os.Getenv("VERIF_EVIDENCE_DIR"); d != "" {
+		return d
+	}
+	return verifDir
 }
